@@ -64,7 +64,7 @@ def gen_history(rng, names, stable, nsteps, hp_ok=True):
     return {"objects": objs, "steps": steps, "probe": probe}
 
 
-def history_stream(rng, nhist, nsteps, streams, viol, samples):
+def history_stream(rng, nhist, nsteps, streams, viol, samples, only_calls=None, tag="histories"):
     names, stable = U.dataset_names()
     hs = [gen_history(rng, names, stable, nsteps) for _ in range(nhist)]
     # a fresh interpreter for the probe reference, and the histories split over a few processes
@@ -84,19 +84,22 @@ def history_stream(rng, nhist, nsteps, streams, viol, samples):
             meth[m] = meth.get(m, 0) + 1
             raising += e is not None
         vs = list(r["violations"])
-        if r["probe"] != ref:
+        if only_calls is not None:       # another property's view of the same histories: only the named calculations
+            vs = [v for v in vs if v.get("call") in only_calls]
+        elif r["probe"] != ref:
             vs.append({"what": "the probe calculation after the history differs bit-wise from the same calculation in a fresh interpreter"})
         for v in vs:
             nviol += 1
             if nviol <= 4:
                 # shrink: keep the history prefix up to the offending step
                 upto = v.get("step", len(hh["steps"]))
-                viol.append({"name": f"history-{nviol}", "found_input": True, "key": "history:" + v["what"] + ":" + str(v.get("method")),
+                viol.append({"name": f"{tag}-{nviol}", "found_input": True, "key": "history:" + v["what"] + ":" + str(v.get("method")),
                              "payload": {"fails": v["what"], "detail": v, "history": dict(hh, steps=hh["steps"][:upto]),
                                          "entry": "interleaved inventory operations"}})
-    streams["histories"] = {"cases": len(hs), "steps": sum(r["steps"] for r in res), "steps_raising": raising, "methods": meth,
+    streams[tag] = {"cases": len(hs), "steps": sum(r["steps"] for r in res), "steps_raising": raising, "methods": meth,
                             "impl_property_failures": nviol,
                             "what": "interleavings of calculations, read-outs, series/plots/CSV writing, operators and (failing) mutating calls on several live "
                                     "inventories of both classes; every live object and the shared data set are fingerprinted before/after every step; "
-                                    "DEFAULTDATA == fresh load; probe calculation bit-identical to a fresh interpreter"}
+                                    "DEFAULTDATA == fresh load; probe calculation bit-identical to a fresh interpreter; after every in-place change (and every 4th step) "
+                                    "all read-outs, decay and cumulative_decays of the receiver are bit-identical to those of a new inventory with the same contents"}
     samples.append({"history": hs[0]["steps"][:6]})
